@@ -22,10 +22,10 @@ RULE = ("cases from rng(seed, 11, 0, i), mode = i mod 5: (0) SE(2) chain and (1)
         "iterations on SE(2)/SE(3) graphs (converging and diverging), driven iteration by iteration (checked after each) or as one call (checked at the end); (3) loader lines with hostile angles / non-unit measurement quaternions; "
         "(4) normalize() on quaternions of norm 1e-3..1e3, incl. exactly / almost unit ones with w<0. distinct = fingerprint of the chain's operand stream / graph; non-trivial = chain with >= 50 operations "
         "or an optimizer run with >= 1 completed iteration or a loader/normalize case with a non-canonical input."
-        " later additions: identity() objects written to by their owner inside the chains.")
+        " later additions: identity() objects written to by their owner inside the chains; every other + / boxplus of the chains is written as augmented assignment on a copy (the form Graph.optimize uses).")
 REQ = ["eval:se2-angle-in-range", "eval:se2-angle-congruent", "eval:se3-unit-norm", "eval:normalize-postcondition", "eval:optimizer-vertex-invariant", "eval:loader-angle", "mode:0", "mode:1",
        "mode:2", "mode:3", "mode:4", "class:angle_huge", "class:angle_nearpi", "class:op:boxplus", "class:op:inverse", "class:op:sub", "class:diverging_run", "class:single_call_run_10+_iterations", "class:iteration_by_iteration_run", "class:normalize_input:unit_wneg",
-       "class:normalize_input:almost_unit_wneg", "class:normalize_again_after_in_place_write", "class:same_value_earlier_in_narrower_type", "class:identity_object_written_by_its_owner"]
+       "class:normalize_input:almost_unit_wneg", "class:normalize_again_after_in_place_write", "class:same_value_earlier_in_narrower_type", "class:identity_object_written_by_its_owner", "class:op:boxplus_augmented_assignment"]
 PLAN = {
     "quick": {"cases": 1000, "soft_s": 70, "min_nontrivial": 300, "require": REQ},
     "thorough": {"cases": 12000, "soft_s": 1500, "min_nontrivial": 3000, "require": REQ},
@@ -70,7 +70,11 @@ def se2_chain(ctx, rng, L):
                 Q = M.PoseSE2([0.1, 0.2], a)
                 check_se2(ctx, Q, Decimal(a), abs(a), "constructor", {"angle": a})
                 tq = Decimal(float(Q[2]))
-                P2 = P + Q
+                if step % 2:
+                    P2 = P.copy()
+                    P2 += Q
+                else:
+                    P2 = P + Q
                 check_se2(ctx, P2, th + tq, abs(float(th + tq)), "add", {"a": float(th), "b": float(tq)})
             elif op == "sub":
                 Q = M.PoseSE2([0.1, 0.2], a)
@@ -92,7 +96,13 @@ def se2_chain(ctx, rng, L):
                 check_se2(ctx, P2, th, abs(float(th)), "copy", {"a": float(th)})
             elif op == "boxplus":
                 d = np.array([0.01, -0.02, a])
-                P2 = P + d
+                if step % 2:
+                    # the form the optimizer uses: augmented assignment on the vertex's pose (no rng draw: the operand stream is unchanged)
+                    P2 = P.copy()
+                    P2 += d
+                    ctx.count("class:op:boxplus_augmented_assignment")
+                else:
+                    P2 = P + d
                 check_se2(ctx, P2, th + Decimal(a), abs(float(th)) + abs(a), "boxplus", {"a": float(th), "delta": a})
                 ctx.count("class:op:boxplus")
             elif op == "constructor" and rng.random() < 0.15:
@@ -153,7 +163,11 @@ def se3_chain(ctx, rng, L):
                 q, cl = gen.unit_quat(rng)
                 stream.append(q)
                 Q = M.PoseSE3([0.3, -0.1, 0.2], q)
-                P2 = P + Q if op == "add" else (P - Q if op == "sub" else Q - P)
+                if op == "add" and step % 2:
+                    P2 = P.copy()
+                    P2 += Q
+                else:
+                    P2 = P + Q if op == "add" else (P - Q if op == "sub" else Q - P)
                 if op != "add":
                     ctx.count("class:op:sub")
             elif op == "inverse":
@@ -172,7 +186,12 @@ def se3_chain(ctx, rng, L):
                 v = rng.normal(size=3)
                 v *= float(rng.choice([1e-12, 1e-6, 1e-2, 0.3, 0.9, 1.0])) * rng.random() / np.linalg.norm(v)
                 stream.append([float(x) for x in v])
-                P2 = P + np.array([0.01, 0.02, -0.01, v[0], v[1], v[2]])
+                if step % 2:
+                    P2 = P.copy()
+                    P2 += np.array([0.01, 0.02, -0.01, v[0], v[1], v[2]])
+                    ctx.count("class:op:boxplus_augmented_assignment")
+                else:
+                    P2 = P + np.array([0.01, 0.02, -0.01, v[0], v[1], v[2]])
                 ctx.count("class:op:boxplus")
         depth += 1
         nrm = float(np.linalg.norm(np.asarray(P2)[3:]))
